@@ -55,7 +55,7 @@ pub open spec fn ck_wf(ck: &CommitterKey) -> bool {
     ck.powers@.len() >= 1
     && (ck.enforced_degree_bounds is Some ==> sorted_usize(ck.enforced_degree_bounds->Some_0@))
     && (ck.shifted_powers is Some ==> (ck.enforced_degree_bounds is Some && ck.enforced_degree_bounds->Some_0@.len() > 0
-        && ck.enforced_degree_bounds->Some_0@.last() <= ck.shifted_powers->Some_0@.len()))
+        && ck.enforced_degree_bounds->Some_0@.last() < ck.shifted_powers->Some_0@.len()))   // (trim keeps max_bound + 1 shifted powers)
     // trim provides shifted powers exactly when some bound is enforced
     && ((ck.enforced_degree_bounds is Some && ck.enforced_degree_bounds->Some_0@.len() > 0) ==> ck.shifted_powers is Some)
     && (ck.enforced_degree_bounds is Some && ck.enforced_degree_bounds->Some_0@.len() > 0 ==> ck.enforced_degree_bounds->Some_0@.last() < 0x4000_0000_0000_0000)
@@ -135,6 +135,9 @@ pub open spec fn marlin_admissible(ck: &CommitterKey, p: &LabeledPolynomial) -> 
     && (p.degree_bound is Some ==> (ck.enforced_degree_bounds is Some && ck.enforced_degree_bounds->Some_0@.contains(p.degree_bound->Some_0)
             && p.polynomial.degree_spec() <= p.degree_bound->Some_0 && p.degree_bound->Some_0 <= ck.max_degree && ck.shifted_powers is Some))
 }
+pub open spec fn marlin_hiding_ok(ck: &CommitterKey, p: &LabeledPolynomial, has_rng: bool) -> bool {
+    p.hiding_bound is Some ==> (has_rng && p.hiding_bound->Some_0 + 1 < ck.powers_of_gamma_g@.len())
+}
 pub struct MarlinKZG10;
 impl MarlinKZG10 {
 //@fn id=marlin_pc.commit file=poly-commit/src/marlin/marlin_pc/mod.rs scope="impl<E, P> PolynomialCommitment<E::ScalarField, P> for MarlinKZG10<E, P>" name=commit props=C01,C04,C07,C08,C17
@@ -152,6 +155,8 @@ impl MarlinKZG10 {
         res is Ok ==> res->Ok_0.0@.len() == polynomials@.len() && res->Ok_0.1@.len() == polynomials@.len(),   // name=marlin_pc.commit.one_commitment_and_state_per_polynomial props=C01
         res is Ok ==> (forall|i: int| 0 <= i < polynomials@.len() ==> marlin_commit_one(ck, (#[trigger] polynomials@[i]), &res->Ok_0.0@[i], &res->Ok_0.1@[i])),   // name=marlin_pc.commit.commitments_are_the_key_defined_linear_maps props=C08,C01,C04,C07
         (res is Ok && rng is None) ==> (forall|i: int| 0 <= i < polynomials@.len() ==> (#[trigger] polynomials@[i]).hiding_bound is None),   // name=marlin_pc.commit.hiding_without_rng_never_succeeds props=C07,C17
+        // in-domain requests are answered: an error means some polynomial is out of domain
+        res is Err ==> (exists|i: int| 0 <= i < polynomials@.len() && !(marlin_admissible(ck, #[trigger] polynomials@[i]) && marlin_hiding_ok(ck, polynomials@[i], rng is Some))),   // name=marlin_pc.commit.only_out_of_domain_requests_are_refused props=C17,C01
 //@body
 //@rw * /&mut crate::optional_rng::OptionalRng\(rng\)/ => &mut optional_rng_wrap(rng)
 //@rw * /Some\(rng\)/ => Some(&mut *rng)
